@@ -288,11 +288,6 @@ def run(ck, ctx):
             raise AnalysisError(f"correct_extension outside the interpreted subset: {e}")
         ck.ob("T-CLI", f"correct_extension({fname!r}) is {want}", bool(got) is want if isinstance(got, (bool, type(None))) else False,
               f"directory mode handles exactly the .sql / .ddl / .hql / .bql files: got {got!r}", ce.loc())
-    src = ast.unparse(ce.node)
-    first_dot = "[1]" in src and "split('.')" in src and "[-1]" not in src and "splitext" not in src and "rsplit" not in src
-    ck.ob("T-CLI", "correct_extension:last-extension", not first_dot,
-          "the extension test looks at the text after the FIRST dot (split('.')[1]): my.table.sql is skipped in directory mode",
-          ce.loc())
     ck.assumptions += ["declined: encodings, file-system states, run-time equality of file content and result (I/O behaviour)",
                        "the dump name is derived from the base name of file_path; how a base name containing further dots is shortened is "
                        "not decided (the property's '<input base name>' is read as the library's documented naming)"]
